@@ -348,7 +348,13 @@ func cmdCheck(args []string) int {
 	os.MkdirAll(filepath.Join(verifDir, "replays"), 0o755)
 	var violLines []string
 	confirmed := 0
+	seenLabel := map[string]bool{}
 	for i, v := range violations {
+		lk := v.Harness + "|" + v.Kind + "|" + v.Label
+		if seenLabel[lk] || len(seenLabel) >= 4 {
+			continue // one replay per failing label is enough to report
+		}
+		seenLabel[lk] = true
 		path := filepath.Join(verifDir, "replays", fmt.Sprintf("%s-%d.json", c.ID, i))
 		h := findHarness(c, v.Harness)
 		writeReplayFile(path, c, h, v, *tier)
